@@ -598,7 +598,7 @@ class Exec:
         self.paths += 1
         c = self.c
         cx = self.ctx(st, res=val.t, resv=val)
-        if c.returns is not S.Any and c.returns.kind != 'any':
+        if c.returns is not S.Any and c.returns.kind != 'any' and not st.ghost.get('$stopped'):
             self.oblige(st, 'returns:type', S.has_type(val.t, c.returns, st.next_ref), kind='type')
         for nm, f in c.ensures:
             self.covers['ensures:' + nm] = self.covers.get('ensures:' + nm, 0) + 1
@@ -659,6 +659,11 @@ class Exec:
         return outs
 
     def stmt(self, s, st):
+        if self.c.stop_before and ast.unparse(s).startswith(self.c.stop_before):
+            # prefix verification: the contract speaks about the state reached here; nothing after this statement is executed
+            self.stopped_at = s.lineno
+            st.ghost['$stopped'] = True
+            return [Outcome('return', st, V(S.NONE(), S.NoneT))]
         m = getattr(self, 'st_' + type(s).__name__, None)
         if m is None:
             raise Unsupported(f'statement {type(s).__name__} at line {s.lineno}: {ast.unparse(s)[:80]}')
@@ -1561,6 +1566,20 @@ class Exec:
                 lim = 2 ** BITW
                 self.safety(st, 'BitRange', desc, z3.And(a >= 0, a < lim, b >= 0, b < lim))
                 return V(S.mk_int(bitop(type(op), a, b)), S.Int)
+            if isinstance(op, ast.Pow):
+                sa, sb = z3.simplify(a), z3.simplify(b)
+                if z3.is_int_value(sa) and z3.is_int_value(sb) and 0 <= sb.as_long() <= 64 and abs(sa.as_long()) <= 2 ** 32:
+                    return V(S.mk_int(z3.IntVal(sa.as_long() ** sb.as_long())), S.Int)      # constant folding only
+                if z3.is_int_value(sb) and 0 <= sb.as_long() <= 4:
+                    r_ = z3.IntVal(1)
+                    for _ in range(sb.as_long()):
+                        r_ = r_ * a
+                    return V(S.mk_int(r_), S.Int)
+            if isinstance(op, (ast.LShift, ast.RShift)):
+                sb = z3.simplify(b)
+                if z3.is_int_value(sb) and 0 <= sb.as_long() <= 64:
+                    self.safety(st, 'BitRange', desc, a >= 0)
+                    return V(S.mk_int(a * (2 ** sb.as_long()) if isinstance(op, ast.LShift) else a / (2 ** sb.as_long())), S.Int)
             raise Unsupported('int operator ' + type(op).__name__)
         if lk == 'str' and rk == 'str' and isinstance(op, ast.Add):
             return V(S.mk_str(z3.Concat(S.sval(l.t), S.sval(r.t))), S.Str)
@@ -1760,6 +1779,9 @@ class Exec:
             bound = self.bind_args(fn, contract, args, kwargs, st, desc)
         tag = self.uniq(f'call@{contract.qualname}')
         self.called_contracts.add(contract.key)
+        bh = getattr(self.c, 'before_call_hooks', {}).get(contract.qualname)
+        if bh is not None:
+            bh(self, st, None)
         # parameter types
         for n, ty in contract.params.items():
             v = bound[n]
